@@ -294,9 +294,10 @@ fn gen_impl_delegation_trait_defs(
                         __impl: & #lifetime ::#entrait::Impl<EntraitT>
                     },
                 );
-                if lifetime.is_none() {
-                    crate::signature::tie_elided_output_to_impl(&mut trait_fn.entrait_sig.sig);
-                }
+                crate::signature::tie_elided_output_to_impl(
+                    &mut trait_fn.entrait_sig.sig,
+                    lifetime.as_ref(),
+                );
             }
 
             let no_mock_opts = Opts {
